@@ -182,7 +182,9 @@ func (node *harness) run(ctx context.Context, sender tracing.ISenderHandle) {
 				verifhook.Point("harness.before_next_action")
 				in := node.activity.NextAction(ctx, m.flow)
 				out := make(chan IAction, 1)
+				helper := node.tracer.RegisterSender()
 				go func(bctx context.Context) {
+					defer helper.Done()
 					select {
 					case rsp := <-in:
 						// announce the end of the boundary phase BEFORE the token gets its answer: afterwards
